@@ -289,7 +289,7 @@ PROPS.update({
         "trusted": ["the Go toolchain compiles and runs the emitted tests; the harness' own resolved model of the schema (sabotage switches verify each oracle reports)",
                     "the generator's templates are tied by event sequences and the kind tables (generator_scalar_tables); the emitted Go text beyond those tables is exercised, not modelled"],
         "assumptions": ["names map to distinct Go identifiers (the property's precondition; see known finding F40 of C14)",
-                        "float32 is outside C05's model-level theorem (C10.float32_roundtrip covers every pattern except signalling NaNs, which come back quieted); the run-time tests cover it"],
+                        "floats are bit patterns read with the bit-level IEEE model; float32 signalling NaNs are excluded from sval_roundtrip (they come back quieted: C10.float32_snan_quieted)"],
     },
     "C04": mpx_prop("C04", ["no_foreign_data", "result_is_own", "ok_only_if_sent", "no_response_no_ok", "handler_once", "status_roundtrip"],
                     ev("rpc_client_Receive", "rpc_server_Receive", "conn_receiveOpen", "conn_receiveMessage", "conn_receiveData", "conn_receiveClose",
